@@ -116,9 +116,9 @@ def c18_history(rnd, nops, ids, contexts):
         nid = rnd.choice(ids)
         if rnd.random() < 0.5:
             ops.append({'op': 'save', 'key': [ctx[0], ctx[1], nid], 'val': rnd.choice(toks),
-                        'fmt': rnd.choice(['pickle', 'pickle', 'json'])})
+                        'fmt': rnd.choice(['pickle', 'pickle', 'json']), 'en': ctx[2] if len(ctx) > 2 else '-'})
         else:
-            ops.append({'op': 'load', 'key': [ctx[0], ctx[1], nid], 'val': '-', 'fmt': '-'})
+            ops.append({'op': 'load', 'key': [ctx[0], ctx[1], nid], 'val': '-', 'fmt': '-', 'en': ctx[2] if len(ctx) > 2 else '-'})
     return ops
 
 
@@ -132,18 +132,24 @@ def c18_execute(ops):
     d = tempfile.mkdtemp(prefix='verif_c18_')
     stores = {}
 
+    import enum
+    # model names given as Enum members (the store keys by the member's VALUE): two enums whose members share a name
+    enums = {'E1': enum.Enum('E1', {'DEFAULT': 'scoring', 'OTHER': 'fraud'}),
+             'E2': enum.Enum('E2', {'DEFAULT': 'fraud', 'OTHER': 'm1'})}
+
     class Ctx:
-        def __init__(self, m, p):
-            self.model_name = m
+        def __init__(self, m, p, en='-'):
+            self.model_name = m if en == '-' else enums[en](m)
             self.pipeline_id = p
 
     async def run():
         out = []
         for o in ops:
             m, p, nid = o['key']
-            st = stores.get((m, p))
+            en = o.get('en', '-')
+            st = stores.get((m, p, en))
             if st is None:
-                st = stores[(m, p)] = FileSystemArtifactStore(Ctx(m, p), d)
+                st = stores[(m, p, en)] = FileSystemArtifactStore(Ctx(m, p, en), d)
             o = dict(o)
             try:
                 if o['op'] == 'save':
@@ -183,7 +189,14 @@ def run_c18(tier, seed):
     cases = {}
     for i in range(nh):
         ids = rnd.sample(NODE_IDS, rnd.randint(2, 6))
-        contexts = [('m1', 'p1')] if i % 3 else [('m1', 'p1'), ('m1', 'p2'), ('m2', 'p1'), ('m1.x', 'p1')]
+        if i % 3:
+            contexts = [('m1', 'p1')]
+        elif i % 2:
+            contexts = [('m1', 'p1'), ('m1', 'p2'), ('m2', 'p1'), ('m1.x', 'p1')]
+        else:
+            # the same key through an Enum member and through its plain value; enums sharing member names
+            contexts = [('scoring', 'p1', 'E1'), ('fraud', 'p1', 'E2'), ('fraud', 'p1', 'E1'), ('scoring', 'p1'), ('m1', 'p1', 'E2'),
+                        ('m1', 'p1')]
         ops = c18_history(rnd, rnd.randint(4, 30 if quick else 60), ids, contexts)
         done = c18_execute(ops)
         hid = 'h%d' % i
@@ -318,6 +331,36 @@ def builder_decl_sets(tier, seed):
         P('two_nodes', [N('A'), N('O', I('p1', 'A'))], 'A', 'O'),
         # nodes without marks hang off the input implicitly, at several depths
         P('implicit_links', [N('A'), N('F1'), N('F2'), N('B', I('p1', 'F1')), N('O', I('p1', 'B'), I('p2', 'F2'))], 'A', 'O'),
+        # one named switch shared by two consumers: one synthetic node, two deliveries
+        P('shared_named_switch', [N('A'), N('S', I('p1', 'A')), N('X', I('p1', 'A')), N('Y', I('p1', 'A')),
+                                  N('W1', SW('p1', 'S', [('l1', 'X'), ('l2', 'Y')], name='shared')),
+                                  N('W2', SW('q1', 'S', [('l1', 'X'), ('l2', 'Y')], name='shared'), I('q2', 'A')),
+                                  N('O', I('p1', 'W1'), I('p2', 'W2'))], 'A', 'O'),
+        P('shared_named_switch3', [N('A'), N('S', I('p1', 'A')), N('X', I('p1', 'A')), N('Y', I('p1', 'A')),
+                                   N('W1', SW('p1', 'S', [('l1', 'X'), ('l2', 'Y')], name='shared')),
+                                   N('W2', SW('q1', 'S', [('l1', 'X'), ('l2', 'Y')], name='shared')),
+                                   N('O', I('p1', 'W1'), I('p2', 'W2'), SW('p3', 'S', [('l1', 'X'), ('l2', 'Y')], name='shared'))],
+          'A', 'O'),
+        # nodes that implement the node interface directly (no node_type; ids node__<name>)
+        P('plainbase_nodes', [N('A'), N('F', plainbase=True), N('B', I('p1', 'A'), plainbase=True),
+                              N('O', I('p1', 'B'), I('p2', 'F'))], 'A', 'O'),
+        P('plainbase_io', [N('A', plainbase=True), N('B', I('p1', 'A')), N('O', I('p1', 'B'), I('p2', 'A'), plainbase=True)], 'A', 'O'),
+        # the destination of a recurrent sub-graph has a second, ordinary consumer that the traversal may meet first
+        P('rec_dest_also_plain', [N('A'), N('S', I('p1', 'A')), N('D', I('p1', 'S')), N('R', RC('p1', 'S', 'D', 2)),
+                                  N('Q', I('p1', 'D')), N('O', I('p1', 'R'), I('p2', 'Q'))], 'A', 'O'),
+        P('rec_dest_also_plain2', [N('A'), N('S', I('p1', 'A')), N('D', I('p1', 'S')), N('R', RC('p1', 'S', 'D', 2)),
+                                   N('Q', I('p1', 'D')), N('O', I('p1', 'Q'), I('p2', 'R'))], 'A', 'O'),
+        P('rec_dest_also_candidate', [N('A'), N('S', I('p1', 'A')), N('D', I('p1', 'S')), N('X', I('p1', 'A')),
+                                      N('O', OO('p1', ['D', 'X']), RC('p2', 'S', 'D', 2))], 'A', 'O'),
+        P('rec_dest_also_case', [N('A'), N('S', I('p1', 'A')), N('D', I('p1', 'S')), N('X', I('p1', 'A')), N('K', I('p1', 'A')),
+                                 N('O', RC('p1', 'S', 'D', 2), SW('p2', 'K', [('l1', 'D'), ('l2', 'X')], name='rdc'))], 'A', 'O'),
+        # a plain subclass of a concrete node (own name, inherited run method): a node of its own, parent met first / last
+        P('derived_parent_first', [N('A'), N('B', I('p1', 'A')), N('B2', I('p1', 'A'), derives='B'),
+                                   N('O', I('p1', 'B'), I('p2', 'B2'))], 'A', 'O'),
+        P('derived_child_first', [N('A'), N('B', I('p1', 'A')), N('B2', I('p1', 'A'), derives='B'),
+                                  N('O', I('p1', 'B2'), I('p2', 'B'))], 'A', 'O'),
+        P('derived_chain', [N('A'), N('B', I('p1', 'A')), N('B2', I('p1', 'A'), derives='B'), N('B3', I('p1', 'A'), derives='B2'),
+                            N('C', I('p1', 'B3'), I('p2', 'B')), N('O', I('p1', 'C'), I('p2', 'B2'))], 'A', 'O'),
     ]
     for p in extra:
         out.append(decls.from_program(p))
@@ -421,7 +464,9 @@ def viewer_case(d, tmp, repeat=1):
     impl = GraphConfigImpl(dag)
     out = []
     for k in range(repeat):
-        cfg = impl.generate(name='verif', verbose_name='Verif', node_colors={'processor': '#ffffff'})
+        with warnings.catch_warnings():
+            warnings.simplefilter('ignore')       # 'Node ... without node type.' for nodes that implement NodeBase directly
+            cfg = impl.generate(name='verif', verbose_name='Verif', node_colors={'processor': '#ffffff'})
         dct = cfg.as_dict()
         try:
             json.loads(json.dumps(dct))
